@@ -36,6 +36,7 @@ package kms
 //@   ensures (err == nil) || result == nil
 //@   ensures [C17:unwrap-fails-only-after-every-region-with-an-entry-was-tried] err != nil && retis(Unmarshal, 1, 0, nil) ==> (forall j int :: 0 <= j && j < len(m.Clients) && hasEntry(dyn(arg(Unmarshal, 1, v), *envelope).KMSKEKs, m.Clients[j].Region) ==> kmstried(m.Clients[j].KMS) == old(kmstried(m.Clients[j].KMS)) + 1)
 //@   ensures [C17:unwrap-returns-what-the-working-region-decrypted] err == nil ==> result == ret(Decrypt, 1, 0)
+//@   ensures [C17:client-list-is-never-rewritten] m.Clients == old(m.Clients) && (forall j int :: 0 <= j && j < len(m.Clients) ==> m.Clients[j].KMS == old(m.Clients[j].KMS) && m.Clients[j].Region == old(m.Clients[j].Region) && m.Clients[j].ARN == old(m.Clients[j].ARN))
 //@   ensures [C17:no-region-with-an-entry-is-skipped-on-the-way] forall a int, b int :: 0 <= a && a < b && b < len(m.Clients) && kmstried(m.Clients[b].KMS) != old(kmstried(m.Clients[b].KMS)) && hasEntry(dyn(arg(Unmarshal, 1, v), *envelope).KMSKEKs, m.Clients[a].Region) ==> kmstried(m.Clients[a].KMS) == old(kmstried(m.Clients[a].KMS)) + 1
 
 //@ axiom [timers-initialised] decryptKeyTimer != nil && encryptKeyTimer != nil
